@@ -1,8 +1,10 @@
 import Op2Proofs.GenBridge
+import Op2Proofs.WriterLemmas
 /-!
 # C14 — bridging lemmas: the guards and cursor updates of `MemoryWriter` and `DynamicMemoryWriter`, as translated from
 the current C++ on this run (`Op2Model/Gen/Streams.lean`), are those of the hand-written models `MemW.*` / `DynW.*`
-for which the theorems of `C14.lean` are proved.  No invariant (`pos ≤ length`) is assumed.
+for which the theorems of `C14.lean` are proved.  Arguments range over all of `[0, 2^64)`; the object is any state
+satisfying the invariant the refinement maintains (`MemW.Inv`: `pos ≤ length < 2^64`).
 -/
 set_option linter.unusedSimpArgs false
 set_option linter.unusedVariables false
@@ -13,29 +15,32 @@ open Op2.Gen.Streams
 /-! ## MemoryWriter -/
 
 theorem C14_gen_memw_seek : MemoryWriter_Seek_translated = true →
-    ∀ (s : MemW) (p : Nat), s.buf.length < W64 → s.pos < W64 → p < W64 →
+    ∀ (s : MemW) (p : Nat), s.Inv → p < W64 →
       MemoryWriter_Seek s.buf.length s.pos p = okOr (fun s' : MemW => (s'.pos : Int)) (MemW.seek s p) := by
   gen_bridge =>
-    intro s p hl hp hk
+    intro s p hi hk
+    obtain ⟨hi, hl⟩ := hi
     simp only [MemW.seek]
     split <;> simp only [okOr_ok, okOr_error] <;>
     simp only [MemoryWriter_Seek, u64, W64] at * <;> gen_close
 
 /-- `SeekForward` = wrap-free guard, then `Seek(this->offset + offset)` -/
 theorem C14_gen_memw_fwd : (MemoryWriter_SeekForward_translated && MemoryWriter_Seek_translated) = true →
-    ∀ (s : MemW) (d : Nat), s.buf.length < W64 → s.pos < W64 → d < W64 →
+    ∀ (s : MemW) (d : Nat), s.Inv → d < W64 →
       MemoryWriter_SeekForward s.buf.length s.pos d = okOr (fun s' : MemW => (s'.pos : Int)) (MemW.fwd s d) := by
   gen_bridge =>
-    intro s d hl hp hk
+    intro s d hi hk
+    obtain ⟨hi, hl⟩ := hi
     simp only [MemW.fwd, MemW.seek]
     (repeat' split) <;> simp only [okOr_ok, okOr_error] <;>
     simp only [MemoryWriter_SeekForward, MemoryWriter_Seek, bind_ite, bind_none', bind_some', u64, W64] at * <;> gen_close
 
 theorem C14_gen_memw_back : (MemoryWriter_SeekBackward_translated && MemoryWriter_Seek_translated) = true →
-    ∀ (s : MemW) (d : Nat), s.buf.length < W64 → s.pos < W64 → d < W64 →
+    ∀ (s : MemW) (d : Nat), s.Inv → d < W64 →
       MemoryWriter_SeekBackward s.buf.length s.pos d = okOr (fun s' : MemW => (s'.pos : Int)) (MemW.back s d) := by
   gen_bridge =>
-    intro s d hl hp hk
+    intro s d hi hk
+    obtain ⟨hi, hl⟩ := hi
     simp only [MemW.back, MemW.seek]
     (repeat' split) <;> simp only [okOr_ok, okOr_error] <;>
     simp only [MemoryWriter_SeekBackward, MemoryWriter_Seek, bind_ite, bind_none', bind_some', u64, W64] at * <;> gen_close
@@ -43,11 +48,12 @@ theorem C14_gen_memw_back : (MemoryWriter_SeekBackward_translated && MemoryWrite
 /-- `WriteImplementation`: same refusal; on success the new offset, and the `memcpy` destination offset and length are
     the model's `pos'`, `pos`, `|b|` — the model patches exactly `b.length` bytes of the buffer at `pos` -/
 theorem C14_gen_memw_write : MemoryWriter_WriteImplementation_translated = true →
-    ∀ (s : MemW) (b : Bytes), s.buf.length < W64 → s.pos < W64 → b.length < W64 →
+    ∀ (s : MemW) (b : Bytes), s.Inv → b.length < W64 →
       MemoryWriter_WriteImplementation s.buf.length s.pos b.length =
         okOr (fun s' : MemW => ((s'.pos : Int), (s.pos : Int), (b.length : Int))) (MemW.write s b) := by
   gen_bridge =>
-    intro s b hl hp hk
+    intro s b hi hk
+    obtain ⟨hi, hl⟩ := hi
     simp only [MemW.write]
     split <;> simp only [okOr_ok, okOr_error] <;>
     simp only [MemoryWriter_WriteImplementation, u64, W64] at * <;> gen_close
